@@ -45,9 +45,38 @@ def check_tuple(values, exact):
         return 'the tuple set %r has duplicates but is classified %s' % (tuples, res.own)
     return None
 
+def in_gamma(n, card):
+    lo = 1 if card in (Card.ONE, Card.AT_LEAST_ONE) else 0
+    return n >= lo and (n <= 1 if card in (Card.ONE, Card.AT_MOST_ONE) else True)
+
+def check_slice(base, start, stop, exact):
+    """e[a:b] / e[i]: one result per combination of an element of e, of a and of b (an absent bound counts once)"""
+    mk = lambda ms: None if ms is None else types.SimpleNamespace(ms=ms)
+    orig_c = C.infer_cardinality; orig_v = C._check_op_volatility
+    C.infer_cardinality = lambda s, **kw: card_of(s.ms, exact); C._check_op_volatility = lambda *a, **k: None
+    try:
+        if stop == 'INDEX':
+            res = vars(C)['__infer_index'](types.SimpleNamespace(expr=mk(base), index=mk(start)), scope_tree=None, ctx=None); n = len(base) * len(start); what = 'e[i]'
+        else:
+            res = vars(C)['__infer_slice'](types.SimpleNamespace(expr=mk(base), start=mk(start), stop=mk(stop)), scope_tree=None, ctx=None)
+            n = len(base) * (1 if start is None else len(start)) * (1 if stop is None else len(stop)); what = 'e[a:b]'
+    finally: C.infer_cardinality = orig_c; C._check_op_volatility = orig_v
+    if not in_gamma(n, res): return '%s over sets of sizes %r evaluates to %d elements but is reported %s' % (what, (len(base), None if start is None else len(start), stop if stop in (None, 'INDEX') else len(stop)), n, res)
+    return None
+
 def main():
     seed, nmax, out = int(sys.argv[1]), int(sys.argv[2]), sys.argv[3]
     res = dict(cases=0, failure=None)
+    for base in POOL:
+        for start in [None] + POOL:
+            for stop in [None, 'INDEX'] + POOL:
+                if stop == 'INDEX' and start is None: continue
+                for exact in (True, False):
+                    res['cases'] += 1
+                    f = check_slice(base, start, stop, exact)
+                    if f:
+                        res['failure'] = dict(rule='__infer_index' if stop == 'INDEX' else '__infer_slice', base=base, start=start, stop=stop, exact_cardinalities=exact, problem=f)
+                        json.dump(res, open(out, 'w'), indent=1); return
     for n in range(1, nmax + 1):
         for values in itertools.product(POOL, repeat=n):
             for exact in (True, False):
